@@ -436,6 +436,22 @@ def gen_cases(chk):
             req = {"subject": {"id": "u", "roles": [], "attrs": {}}, "action": "read",
                    "resource": {"type": "doc", "id": "1", "attrs": {}}, "context": {"a": gen.fresh(v), "b": gen.fresh(other)}}
             cases.append({"fam": "hostile", "doc": doc, "reqs": [req]})
+    # reference-shaped literals: objects with an "attr" key whose value is NOT a path string ({"attr": 5}, null, list,
+    # object, bool, float, ""), wherever the schema lets an arbitrary value or a container stand (the schema forces a
+    # string only where an operand is validated as an attribute reference); resolve() treats any object with an "attr"
+    # key as a reference — a missing path, never an exception.  The harness keeps only schema-accepted documents.
+    for op in ("==", "!=", "in", "contains", "hasAny", "hasAll", ">", "startsWith", "before", "between"):
+        for odd in (5, None, ["a"], {"x": 1}, True, 1.5, "", 0, [], {}):
+            lit = {"attr": odd}
+            for k, cond in enumerate(({op: [lit, {"attr": "context.a"}]}, {op: [{"attr": "context.a"}, lit]},
+                                      {op: [lit, gen.fresh(lit)]}, {"not": {op: [lit, 1]}},
+                                      {op: [{"attr": "context.a"}, [lit, lit]]})):
+                doc = {"algorithm": "first-applicable", "rules": [
+                    {"id": "h", "effect": "permit", "actions": ["read"], "resource": {"type": "doc"}, "condition": cond},
+                    {"id": "fallback", "effect": "deny", "actions": ["*"], "resource": {"type": "*"}}]}
+                req = {"subject": {"id": "u", "roles": [], "attrs": {}}, "action": "read",
+                       "resource": {"type": "doc", "id": "1", "attrs": {}}, "context": {"a": [5, "x"] if k % 2 else 5}}
+                cases.append({"fam": "attr-literal", "doc": doc, "reqs": [req]})
     # collections with nested list / object members: hasAll / hasAny over every pair (request value x request value,
     # request value x policy literal, literal x request value), in / contains with such a haystack
     where = ["subject.attrs.groups", "resource.attrs.labels", "context.scopes"]
